@@ -16,7 +16,14 @@ import (
 	"golang.org/x/tools/go/ssa"
 )
 
-const verifDir = "/verif"
+// verifDir is the root of the verification tree (harnesses, evidence, scratch); bin/vcheck sets
+// VERIF_DIR to the directory it lives in so that a snapshot copy works on its own files.
+var verifDir = func() string {
+	if d := os.Getenv("VERIF_DIR"); d != "" {
+		return d
+	}
+	return "/verif"
+}()
 
 func main() {
 	if len(os.Args) < 2 {
